@@ -28,14 +28,16 @@ import tempfile
 from common import xr, xvec
 
 ID = "C09"
-TARGETS = ["Proofs.C09", "Proofs.C09Clean"]
-GEN_PREFIXES = []
+TARGETS = ["Proofs.C09", "Proofs.C09Clean", "Proofs.GenEq.TextHeader"]
+GEN_PREFIXES = ["texthdr."]
 THEOREMS = {
     "Proofs.C09": ["VerifModel.C09." + t for t in [
         "C09_roundtrip", "C09_layout_irrelevant", "C09_rows_perm", "C09_classify", "C04_textclean",
         "C09_missing_tokens"]],
     "Proofs.C09Clean": ["VerifModel.C09." + t for t in [
         "C09_clean_agrees_with_netcdf", "C09_clean_is_C04_textClean"]],
+    "Proofs.GenEq.TextHeader": ["VerifModel.GenEq.TextHeader." + t for t in [
+        "regular_eq", "isQ_eq", "isP_eq", "isE_eq", "isOther_eq"]],
 }
 TRUSTED_BASE = [
     "Lean 4.33 kernel; axioms propext, Classical.choice, Quot.sound only",
@@ -784,8 +786,87 @@ def read_real(lines, sepseed):
     return show(d)
 
 
+# ---- translator extension (harness/translate_more.py gen_texthdr)
+TRUSTED_BASE = TRUSTED_BASE + [
+    "harness/translate_more.py gen_texthdr: the header classifiers Text._get_quantile_fields / _get_threshold_fields / "
+    "_get_ens_fields / _get_other_fields and Input.get_regular_names are regenerated on every run (Gen/TextHeader.lean) "
+    "over the model's Word (att[0] == c as startsWith, verif.util.is_number(att[1:]) as the token class of float(att[1:]), "
+    "is_number itself checked to be try float / except ValueError) - validated by stream text.genhdr on the real methods; "
+    "GenEq.TextHeader.isQ_eq / isP_eq / isE_eq / isOther_eq / regular_eq: generated = the predicates of "
+    "Model/TextInput.lean that C09_classify and C09_roundtrip are about"]
+RULE += ("; text.genhdr: lists of header words (regular names, p/q/e with numeric, signed, exponent, nan / inf, non-numeric "
+         "and empty suffixes, pit, elev, upper case, non-ASCII digits) through the four real classifier methods")
+LEVEL_TEXT += (" The four header classifiers are machine-translated from /repo on every run and proved equal to the "
+               "model's predicates.")
+
+
+# ---- stream text.genhdr: the header classifiers machine-translated from input.py (Gen/TextHeader.lean) executed against
+# the real Text._get_quantile_fields / _get_threshold_fields / _get_ens_fields / _get_other_fields
+HDR_POOL = ["obs", "fcst", "id", "location", "lat", "lon", "elev", "altitude", "hour", "date", "unixtime", "leadtime", "offset",
+            "pit", "p", "q", "e", "p5", "p-5", "p+5", "p.5", "p5.", "p5e0", "p1e400", "pnan", "pinf", "p-inf", "pit0", "p5x",
+            "q0.25", "q.1", "q1", "q0", "qq", "q-", "q1_", "e0", "e10", "e1.5", "elev2", "e-1", "ens", "x0", "bias", "Q0.5",
+            "P5", "E1", "threshold", "quantile", "px", "obs2", "fcst_raw", "0", "5", "p0x10", "q١", "e１"]
+
+
+def dec_word(tok):
+    n = tok.split("~")[0]
+    return binascii.unhexlify(n[1:]).decode() if n.startswith("=") else n
+
+
+def _hdr_ops(tier, rng):
+    r = random.Random(repr(rng.getstate()[1][:4]) + "genhdr")     # derived without advancing rng: the other streams keep their samples
+    yield "text.genhdr", "genhdr " + ";".join(enc_word(w) for w in HDR_POOL)
+    for _ in range(60 if tier == "quick" else 1500):
+        ws = []
+        for _k in range(r.randint(1, 8)):
+            if r.random() < 0.5:
+                ws.append(r.choice(HDR_POOL))
+            else:
+                ws.append(r.choice("pqe") + r.choice(["", "-", "+", "."]) + r.choice(["", "5", "0.5", "1e3", "x", "it", "lev", "nan", "inf"]) + r.choice(["", "", "_", "e"]))
+        yield "text.genhdr", "genhdr " + ";".join(enc_word(w) for w in ws)
+
+
+def _hdr_impl(op):
+    import verif.input
+    words = [dec_word(t) for t in op.split(" ")[1].split(";")]
+    t = verif.input.Text.__new__(verif.input.Text)       # the classifiers need no file
+    given = list(words)
+    sets = [("q", t._get_quantile_fields(words)), ("p", t._get_threshold_fields(words)), ("e", t._get_ens_fields(words)),
+            ("o", t._get_other_fields(words))]
+    if words != given:
+        return "MUTATED-INPUT"
+    return ",".join("".join(k for k, got in sets if w in got) or "-" for w in words)
+
+
+def _hdr_judge(op, impl_out):
+    """the format's description: q<number> is a quantile column, p<number> a threshold (CDF) column, e<number> an ensemble
+    member — pit and elev are not —, the coordinate / obs / fcst names are regular columns, anything else is an other-field"""
+    regular = ["obs", "fcst", "id", "location", "lat", "lon", "elev", "altitude", "hour", "date", "unixtime", "leadtime", "offset"]
+
+    def num(s):
+        try:
+            float(s)
+            return True
+        except ValueError:
+            return False
+    want = []
+    for w in (dec_word(t) for t in op.split(" ")[1].split(";")):
+        if w in regular:
+            want.append("-")
+        elif len(w) > 1 and w[0] in "qpe" and num(w[1:]) and w not in ("pit", "elev"):
+            want.append(w[0])
+        else:
+            want.append("o")
+    if impl_out != ",".join(want):
+        return ({"kind": "header-class"}, "header words classified %s, the format description says %s (%s)"
+                % (impl_out, ",".join(want), op[:200]))
+    return None
+
+
 def impl(op):
     a = op.split(" ")
+    if a[0] == "genhdr":
+        return _hdr_impl(op)
     if a[0] == "textsplit":
         s = "" if a[2] == "-" else binascii.unhexlify(a[2]).decode()
         # the reader's own expressions (input.py:332-346); an empty string cannot come out of file iteration
@@ -847,6 +928,8 @@ def gen_ops(tier, rng):
         yield "text.split", "textsplit 0:%d %s" % (k, hexs(line) or "-")
     for _ in range(40 if tier == "quick" else 400):
         yield "text.reject", "textfile m:%d %s" % (rng.randrange(1, 2 ** 30), enc_file(malformed(rng)))
+    for x in _hdr_ops(tier, rng):
+        yield x
 
 
 def cmp(op, impl_out, model_out):
@@ -877,6 +960,8 @@ _LAST = {}
 
 def judge(op, impl_out, spec_out):
     a = op.split(" ")
+    if a[0] == "genhdr":
+        return _hdr_judge(op, impl_out)
     if a[0] == "textsplit":
         g, k = (int(x) for x in a[1].split(":"))
         if g == 0:
@@ -930,6 +1015,8 @@ def judge(op, impl_out, spec_out):
 
 
 def nontrivial(op, out):
+    if op.startswith("genhdr"):
+        return any(c in out for c in "qpe")
     if op.startswith("textsplit"):
         return ";" in out
     if "=" not in out:
@@ -955,6 +1042,9 @@ def extra_evidence(rows):
         a = r["op"].split(" ")
         if a[0] == "textsplit":
             c["split-lines"] += 1
+            continue
+        if a[0] == "genhdr":
+            c["header-word-lists"] += 1
             continue
         if a[1].startswith("m:"):
             c["malformed:" + r["impl"][:14]] += 1
